@@ -159,7 +159,7 @@ def poses(k):
 
 
 POSES = {k: dict(poses(k)) for k in (0, 1, 2, 3)}
-NBR_LEN = {"C": 1.50, "H": 1.05, "F": 1.35, "M": 2.05}
+NBR_LEN = {"C": 1.50, "H": 1.05, "F": 1.35, "M": 2.05, "Q": 2.05}  # M: Fe typed CoordinationCenter, Q: Pd typed Regular
 CENTRES = ["C", "N", "O", "B", "Si", "P", "S", "Al"]
 CHARGES = [0, 1, -1]
 SPINS = [0, 1, 2]
@@ -172,8 +172,9 @@ BT = {
     "aromatic": (BondType.Aromatic, 1.0),
     "fractional": (BondType.FractionalOrder, 0.5),
     "fractional-1.25": (BondType.FractionalOrder, 1.25),
+    "ligand": (BondType.Ligand, 1.0),
 }
-BT_ORDER = {"single": 1.0, "double": 2.0, "triple": 3.0, "aromatic": 1.5, "fractional": 0.5, "fractional-1.25": 1.25}
+BT_ORDER = {"single": 1.0, "double": 2.0, "triple": 3.0, "aromatic": 1.5, "fractional": 0.5, "fractional-1.25": 1.25, "ligand": 0.0}
 OFFSETS = [(0.0, 0.0, 0.0), (0.3, -1.2, 0.7), (-2.5, 0.4, 1.9), (10.0, 10.0, -10.0)]
 
 
@@ -228,6 +229,8 @@ def build(case, seed, rep="members"):
     for n, ((el, _), d) in enumerate(zip(case["nbrs"], pose)):
         if el == "M":
             b = Atom(26, atype=10) if plain else Atom("Fe", atype=AtomType.CoordinationCenter)
+        elif el == "Q":
+            b = Atom(46, atype=1) if plain else Atom("Pd")
         else:
             b = Atom(Z_OF[el], atype=1, formal_charge=np.int64(0), formal_spin=np.int64(0)) if plain else Atom(el)
         if n < len(nbr_hints) and nbr_hints[n] is not None:
@@ -461,7 +464,10 @@ def verify(m, snap, whole=False, notes=None, selected=None):
             continue
         # placement
         X = snap["coords"][i]
-        pn = [j for j in nbrs[i] if snap["desc"][j][3] != CC]
+        # the neighbours that fix the direction (the routine's documented rule): the atoms bonded to it
+        # that are not typed CoordinationCenter, whatever the bond type; when there are only
+        # CoordinationCenter neighbours, those
+        pn = [j for j in nbrs[i] if snap["desc"][j][3] != CC] or list(nbrs[i])
         k = len(pn)
         cls = f"{k}-neighbours"
         ref = None
@@ -487,15 +493,7 @@ def verify(m, snap, whole=False, notes=None, selected=None):
         if np.any(np.abs(d - L) > TOL_R):
             out.append((f"place[{cls}]:wrong-distance", f"Z={z}: X-H distances {np.round(d, 6).tolist()}, r_cov(X)+r_cov(H) = {L:.2f}"))
         # direction: away from the centroid of the existing neighbours
-        cents = []
-        if nbrs[i]:
-            cents.append(np.mean(snap["coords"][nbrs[i]], axis=0) - X)
-        if pn and len(pn) != len(nbrs[i]):
-            cents.append(np.mean(snap["coords"][pn], axis=0) - X)
-        if cents and not pn:
-            # all neighbours are CoordinationCenter atoms, which the routine documents it ignores: under
-            # that reading there is no centroid to point away from
-            cents = []
+        cents = [np.mean(snap["coords"][pn], axis=0) - X] if pn else []
         if cents:
             determinate = True
             if whole:
@@ -784,6 +782,26 @@ def nbr_menu(ctx):
     return out
 
 
+def dative_menu(ctx):
+    """neighbour atom type and bond type crossed independently: a Regular-typed metal through a ligand
+    or a single bond, a CoordinationCenter through a ligand or a single bond, carbon through a ligand bond"""
+    special = [("Q", "ligand"), ("Q", "single"), ("M", "ligand"), ("M", "single"), ("C", "ligand")]
+    opts = [("C", "single")] + special
+    out = {0: [], 1: [], 2: [], 3: []}
+    for el, bt in special:
+        out[1].append(((el,), (bt,)))
+    pairs = [(a, b) for i, a in enumerate(opts) for b in opts[i:] if (a in special or b in special)]
+    for a, b in pairs:
+        out[2].append(((a[0], b[0]), (a[1], b[1])))
+        out[3].append((("C", a[0], b[0]), ("single", a[1], b[1])))
+    if ctx.thorough:
+        for a, b in pairs:
+            out[3].append((("H", a[0], b[0]), ("single", a[1], b[1])))
+    heads = [(c, q, 0, None) for c in rot(CENTRES, ctx.seed) for q in ((0, 1) if ctx.thorough else (0,))]
+    heads += [(c, 0, 0, h) for c in rot(CENTRES, ctx.seed) for h in ((1, 2, 3) if ctx.thorough else (1, 2))]
+    return heads, out
+
+
 def pose_menu(ctx, k):
     names = [n for n, _ in poses(k)]
     if not ctx.thorough and k >= 1:
@@ -862,6 +880,8 @@ def _grammar_part(sub, part):
 # histories: a query, then an edit of the connectivity / the fields, then the call
 # =================================================================================================
 QUERIES = ("no-query", "neighbour-queries", "earlier-call")
+# the centre's element reassigned to one of another group
+OTHER_GROUP = {"B": ("N", "O"), "C": ("O", "N"), "N": ("C", "S"), "O": ("C", "B"), "Si": ("S", "P"), "P": ("C", "O"), "S": ("Si", "N"), "Al": ("O", "C")}
 
 
 def apply_query(m, q):
@@ -924,6 +944,20 @@ def apply_edit(m, case, edit):
         centre.attrib[HINT] = edit[1]
     elif kind == "hint-removed":
         centre.attrib.pop(HINT, None)
+    elif kind in ("element-assigned", "element-assigned+added-hydrogens-deleted", "added-hydrogens-deleted"):
+        if kind.startswith("element"):
+            centre.element = edit[1]
+        if kind.endswith("deleted"):
+            n0 = 1 + k + 2  # centre, drawn neighbours, two bystanders: everything after is an added hydrogen
+            for a in list(m.atoms)[n0:]:
+                if centre in set(m.connected_atoms(a)):
+                    m.del_atom(a)
+    elif kind == "neighbour-added":
+        a = Atom(edit[1], label="extra")
+        m.add_atom(a, m.coords[0] + _ap_direction(case) * 1.5)
+        m.connect(centre, a)
+    elif kind == "neighbour-removed":
+        m.del_atom(m.atoms[1])
     else:  # pragma: no cover
         raise HarnessError(f"unknown edit {edit}")
 
@@ -944,6 +978,13 @@ def edit_menu(ctx, case):
             out += [["f_order-assigned", 1.5]] + ([["f_order-assigned", 2.0]] if T else [])
     out += [["formal_charge-assigned", q] for q in CHARGES if q != case["charge"]][: None if T else 1]
     out += [["formal_spin-assigned", sp] for sp in (SPINS + [-1, -2]) if sp != case["spin"]][: None if T else 1]
+    other = OTHER_GROUP[case["centre"]]
+    out += [["element-assigned", z] for z in (other if T else other[:1])]
+    out += [["element-assigned+added-hydrogens-deleted", z] for z in (other if T else other[:1])]
+    out += [["added-hydrogens-deleted", 0]]
+    out += [["neighbour-added", el] for el in (("C", "H", "F") if T else ("C",))]
+    if k:
+        out += [["neighbour-removed", 0]]
     if case["hint"] is None:
         out += [["hint-added", h] for h in ((0, 1, 2, 3) if T else (0,))]
     else:
@@ -1007,6 +1048,8 @@ def _history_part(sub, part):
                 for query in QUERIES:
                     if edit[0] == "hint-removed" and query == "earlier-call":
                         continue  # the earlier call has consumed the hint already
+                    if edit[0].endswith("hydrogens-deleted") and query != "earlier-call":
+                        continue  # nothing has been added yet
                     case = {**base, "history": {"query": query, "edit": edit}}
                     try:
                         m = materialise(case, seed, sub.scratch)
@@ -1550,7 +1593,7 @@ def run(ctx):
         "only the default call add_implicit_hydrogens() (all atoms) is judged; the count clause speaks about every atom of groups 13-16",
         "bond orders: single 1, double 2, triple 3, aromatic 1.5, fractional = its f_order, amide 1, ligand/dummy/not-connected 0 (a dative bond does not use up the donor's valence); atoms with a bond of any other type are not judged",
         "removing the consumed hint key from an atom's attrib is not a change of the atom",
-        "'away from the centroid of the existing neighbours' is accepted for the centroid of all neighbours or of the neighbours that are not typed CoordinationCenter (the routine documents that it ignores those); in whole molecules the clause is applied only where the surroundings fix a direction (centroid >= 0.2 A from the atom; three neighbours: atom >= 0.2 A out of their plane)",
+        "'away from the centroid of the existing neighbours': the neighbours are the bonded atoms that are not typed CoordinationCenter, whatever the bond type (a dative/ligand bond to a metal typed Regular counts, a CoordinationCenter attached by a single bond does not); when an atom has only CoordinationCenter neighbours, those (the routine's documented rule); in whole molecules the clause is applied only where the surroundings fix a direction (centroid >= 0.2 A from the atom; three neighbours: atom >= 0.2 A out of their plane)",
         "direction clause: every new hydrogen individually when the atom ends with <= 4 substituents; when a hint over-saturates the atom (neighbours + hydrogens > 4) the mean direction of its new hydrogens must point away",
         "covalent radii: Pyykko & Atsumi 2009 single-bond radii; 'at the sum of covalent radii' is judged to 1e-3 A (the precision of the structure file formats); deviations above 1e-6 A are counted in a note (the two-hydrogen branch uses 4-digit sin/cos constants: 5.6e-5 A)",
         "representations and histories: the expected counts are always computed from what the molecule object holds right before the call (bond type numbers, f_order, formal charge/spin, hint), the order of an int-typed bond being that of the enum member with the same value; a failure of a variant (plain numbers, library/pickle round trip, query+edit history) is reported under '<symptom family>@<variant class>' and only for what the same molecule built plainly does not show",
@@ -1583,6 +1626,13 @@ def run(ctx):
         hs = neg_heads[i::nn]
         if hs:
             parts.append(("grammar", (hs, nm, ctx.seed, 2 if ctx.thorough else 1)))
+    dheads, dnm = dative_menu(ctx)
+    validate_poses(ctx, dnm)
+    ctx.bound["atom_type_x_bond_type"] = f"{len(dheads)} heads x {sum(len(v) for v in dnm.values())} neighbour specifications with (Regular metal | CoordinationCenter | carbon) x (ligand | single) crossed, every pose"
+    for i in range(4):
+        hs = dheads[i::4]
+        if hs:
+            parts.append(("grammar", (hs, dnm, ctx.seed, None, "dative")))
     oheads, ospecs = ownership_bases(ctx)
     ctx.bound["ownership"] = f"{len(oheads) * len(ospecs)} environments x {len(OWN_KINDS)} ways in which the atoms are (or were) also held by another container / the molecule came into being; whole molecules x 3"
     for i in range(4):
@@ -1612,7 +1662,7 @@ def run(ctx):
             parts.append(("grammar", (hs, nm, ctx.seed)))
     # longest parts first (the partition only changes wall time)
     weight = {"grammar": 0, "whole": 1, "cdxml-sequence": 2, "history": 3, "sequence": 4, "ownership": 5}
-    parts.sort(key=lambda p: (1 if (p[0] == "grammar" and len(p[1]) > 3) else weight[p[0]]))
+    parts.sort(key=lambda p: (1 if (p[0] == "grammar" and len(p[1]) > 3) else weight[p[0]]))  # short grammar parts (negative spins, dative) after the long ones
     # core.Ctx.pmap pickles the parent context with every job while the main thread merges finished
     # parts into it; with many parts that races ("set changed size during iteration").  The jobs are
     # therefore launched from a context that pickles to its identity only and buffers the results.
